@@ -38,6 +38,7 @@ func runC06(c *kit.Ctx) {
 	c.StartRule("R1", "scan response arrays are paired index by index under a length guard", 4)
 	{
 		eng := bounds.New(p)
+		guardsAreTight(c, eng, []*ssa.Function{p.Func("hrpc", "", "cellFromCellBlock")})
 		n := 0
 		for _, o := range eng.Obligations(dcb) {
 			n++
@@ -92,6 +93,7 @@ func runC06(c *kit.Ctx) {
 
 	// ---- R2 ---------------------------------------------------------------
 	c.StartRule("R2", "whole rows only, unless partial results were asked for", 3)
+	noFetchedRowIsSkipped(c)
 	{
 		eof := p.SSA.ImportedPackage("io")
 		var eofG *ssa.Global
